@@ -22,6 +22,7 @@ RULE = ("packed structured arrays: 1..6 fields named from a pool with case varia
         "Non-trivial: (>=3 fields with a sub-array or non-native field and a selection that is a proper "
         "re-ordered subset -- for functions without a selection: and >=2 arrays / defaults given / a "
         "proper subset of common fields) or a 0-d/2-d input.  Distinct = distinct case JSON.")
+RULE += (" " + 'Also: one array in forty has 2^16..2^18 (+1) elements.')
 ASSUMPTIONS = [
     "dtypes are packed, not nested, without titles; field names are identifiers",
     "remove_fields and copy_fields_by_name are only given existing names (their treatment of unknown "
